@@ -1484,6 +1484,8 @@ class Interp(object):
         idx = z3.simplify(z3.If(kz < 0, kz + nz, kz))
         if isinstance(key, int):
             idx = z3.simplify(kz + nz if key < 0 else kz)
+        elif not self.ctx.feasible_full(kz < 0):
+            idx = z3.simplify(kz)       # provably non-negative: no wrap-around case (keeps element terms comparable)
         return self.seq_get_sym(s, idx)
 
     def slice_indices(self, sl, n):
@@ -2495,8 +2497,16 @@ class Interp(object):
         which = ctx.choice(2, tag)
         spec.havoc(self, env, st0)
         self.havoc_loop_state(node, env, spec)
-        # loop-local names assigned in the body are undefined garbage unless re-assigned
+        # names assigned in the body hold, at the start of an arbitrary iteration, whatever an earlier iteration left there:
+        # unless the invariant describes them (keeps / handles) they must not be read before the body assigns them again
         if which == 0:
+            tn_ = set(t.id for t in ast.walk(node.target) if isinstance(t, ast.Name))
+            described = set(spec.keeps(env)) | set(getattr(spec, 'handles', ()))
+            for st_ in node.body:
+                for sub_ in ast.walk(st_):
+                    if isinstance(sub_, ast.Name) and isinstance(sub_.ctx, ast.Store) and sub_.id not in tn_ and sub_.id not in described \
+                            and sub_.id in env and not isinstance(env[sub_.id], Poison):
+                        env[sub_.id] = Poison('value of %s carried over from an earlier iteration (not described by the loop invariant)' % sub_.id)
             kk = ctx.fresh_int('it_k')
             ctx.assume(z3.And(0 <= kk, kk < nz))
             for name, f in spec.inv(self, env, kk, st0):
